@@ -192,3 +192,20 @@ class Report:
 
     def stat(self, k, v):
         print("STAT %s %d" % (k, v))
+
+
+def second_entry(rep, labels, call, words, suffix=""):
+    """the register-scrubbing entry point ascon_backend_free(state): must return with callee-saved registers, stack pointer and return address intact and must not touch memory"""
+    if "ascon_backend_free" not in labels:
+        return 0
+    try:
+        out, problems = call()
+    except EmuError as e:
+        rep.fail("execution:backend_free" + suffix, str(e))
+        return 0
+    if out.shape != words.shape or (out != words).any():
+        rep.fail("value:backend_free" + suffix, "ascon_backend_free modified the state memory")
+    for pmsg in sorted(set(problems))[:4]:
+        rep.fail("abi:backend_free" + suffix, pmsg)
+    print("SAMPLE second entry point ascon_backend_free%s emulated: callee-saved registers / stack pointer / return address / no memory access" % suffix)
+    return words.shape[1]
